@@ -18,6 +18,8 @@
 
 from __future__ import absolute_import
 
+from fractions import Fraction
+
 import six
 
 from mingus.containers.mt_exceptions import MeterFormatError
@@ -25,6 +27,12 @@ from mingus.containers.note_container import NoteContainer
 from mingus.core import meter as _meter
 from mingus.core import progressions, keys
 from typing import Optional
+
+
+def _exact_length(duration):
+    """Return the length 1/duration of a note value as an exact fraction
+    (the value 2.6666666666666665 of a dotted quarter is 8/3)."""
+    return 1 / Fraction(duration).limit_denominator(10 ** 6)
 
 
 class Bar(object):
@@ -98,11 +106,15 @@ class Bar(object):
             notes = NoteContainer(notes)
         elif isinstance(notes, list):
             notes = NoteContainer(notes)
-        # current_beat is a float running total of reciprocals: allow for its rounding
-        # error, so that an entry that exactly fills the bar is not refused.
-        if self.current_beat + 1.0 / duration <= self.length + 1e-9 or self.meter == (0, 0):
-            self.bar.append([self.current_beat, duration, notes])
-            self.current_beat += 1.0 / duration
+        # The beats are worked out from the exact lengths of the entries: a
+        # float running total of reciprocals drifts (six triplet eighths do not
+        # add up to 0.5), an entry that exactly fills the bar would be refused
+        # and an entry could not be found again at its beat.
+        total = sum((_exact_length(x[1]) for x in self.bar), Fraction(0))
+        new_total = total + _exact_length(duration)
+        if new_total <= Fraction(self.length) or self.meter == (0, 0):
+            self.bar.append([float(total), duration, notes])
+            self.current_beat = float(new_total)
             return True
         else:
             return False
